@@ -63,8 +63,7 @@ def rand_value(rng, strings=WORDS):
     if k < 0.45:
         return ['i', rng.choice([0, 1, -3, 7, 12, 100000, 2 ** 40])]
     if k < 0.7:
-        return ['f', rng.choice([1.5, 3.0, -0.25, 1e-7, 1e22, 0.1, 2.0 / 3, float('inf'), float('nan'), 123456.789012345]).hex()
-                if True else None]
+        return ['f', rng.choice([1.5, 3.0, -0.25, 1e-7, 1e22, 0.1, 2.0 / 3, float('inf'), float('nan'), 123456.789012345]).hex()]
     return ['s', rng.choice(strings)]
 
 
@@ -120,9 +119,10 @@ def rand_table(rng, fields, n_ids=6, ragged=False, with_cid=True):
         rows.append(row)
     if rng.random() < 0.2 and rows and with_cid:
         rows.append(list(rng.choice(rows)))        # a repeated cluster id: the later row wins
-        j = rng.randrange(len(rows[-1]))
-        if header[j % len(header)] != 'cluster_id' and j < len(rows[-1]):
-            rows[-1][j] = 'later'
+        if rows[-1]:
+            j = rng.randrange(len(rows[-1]))
+            if j < len(header) and header[j] != 'cluster_id':
+                rows[-1][j] = 'later'
     return table_text(delim, header, rows)
 
 
